@@ -96,6 +96,7 @@ def handleCase (mode : String) (id : Nat) (hdr body : List Sexp) : String :=
   | "futures" => Drv.Futures.handle id hdr body
   | "futsubs" => Drv.Futures.handleSubs id hdr body
   | "futcopy" => Drv.Futures.handleCopy id hdr body
+  | "futsusp" => Drv.Futures.handleSuspended id hdr body
   | "core" => Drv.Core.handle id hdr body
   | "ctxhist" => Drv.Contexts.handle id hdr body
   | "threads" => Drv.Threads.handle id hdr body
